@@ -33,6 +33,12 @@ AWKWARD_IDS = [
     "b0351", "G1", "0abc", "1", "12.5", "1e5", "b0351.1", "ncbigene:123", "a-b/c", "if",
     "lambda", "None", "True", "in", "is", "not", "Or", "x_AND_y", "a=", "''q''", 'd"q',
     "if.else", "9/11", "g-1", "s0001", "YAL001C", "3.2.1", "x:y:z", "A.B-C", "k=v", "for",
+    # every other Python keyword (the parser escapes them with a prefix) ...
+    "pass", "as", "class", "else", "except", "assert", "async", "await", "break", "continue",
+    "def", "del", "elif", "finally", "from", "global", "import", "nonlocal", "raise", "return",
+    "try", "while", "with", "yield", "False",
+    # ... and identifiers carrying an operator word as a token of their own
+    "OR-1", "x.AND", "HGNC:OR", "AND/2", "ORF1", "BRAND1", "or-1", "and.x", "x-or", "AND.1",
 ]
 PLAIN_IDS = ["g%d" % i for i in range(1, 12)]
 
